@@ -277,6 +277,9 @@ def nm_render(prog):
             lines.append("def f():")
             lines += ["    " + l for l in s[1]]
             lines.append("f()")
+        elif s[0] == 'defonly':
+            lines.append("def f():")
+            lines += ["    " + l for l in s[1]]
     return "\n".join(lines) + "\n"
 
 
@@ -329,7 +332,7 @@ def _classify_miss(prog, code, line, name):
     text = src[line - 1]
     # (a) the read sits in a function body that also assigns the name (so it is local) while a global exists
     for s in prog:
-        if not isinstance(s, str) and s[0] == 'def':
+        if not isinstance(s, str) and s[0] in ('def', 'defonly'):
             if text.strip() in [l.strip() for l in s[1]] and text.startswith("    ") and \
                     any(re.match(r"%s\s*=" % name, l) for l in s[1]):
                 return 'local read before local assignment shadowing a global'
@@ -391,6 +394,13 @@ def phases(tier):
     ph.append(Phase('exact-spellings', make_exact(spell, 3 if tier == 'thorough' else 2), setup=_setup, chunk=300,
                     describe='sequences over the base statements and other spellings of assignment (several targets, annotated, '
                              'augmented, unpacking), plain and inside branches (%d statements)' % len(spell)))
+    # a function defined once and called from several places: every call is one more execution of its body
+    calls = ["x = 1", "print(x)", "f()", ("defonly", ["print(x)"]), ("defonly", ["x = 1"]), ("defonly", ["print(x)", "x = 1"]),
+             ("if", ["x = 1", "f()"]), ("if", ["f()"]), ("if", ["x = 1"]), ("ifelse", ["x = 1"], ["f()"]), ("while", ["f()"]),
+             ("for", ["x = 1", "f()"])]
+    ph.append(Phase('no-miss-calls', make_nomiss(calls, 4 if tier == 'thorough' else 3), setup=_setup, chunk=100,
+                    describe='a function defined once and called from several places (plain, in branches, in loops): all '
+                             'sequences over %d statements' % len(calls)))
     d1b = _stmts(1, 2)
     # reduced sets for sequences of three statements
     core3 = [('asg', 'x'), ('asg', 'y'), ('rd', 'x')]
